@@ -28,11 +28,11 @@ func init() {
 }
 
 type spelling struct {
-	Kind string
-	Arg  func(base, rel string) string // rel is "dir" or "file" relative to the cwd (=base)
-	Chdir bool                         // the watched directory itself is the cwd (argument cleans to ".")
-	Link string                        // if set: create this symlink (relative to cwd) first, to Target
-	Tgt  func(base, rel string) string
+	Kind  string
+	Arg   func(base, rel string) string // rel is "dir" or "file" relative to the cwd (=base)
+	Chdir bool                          // the watched directory itself is the cwd (argument cleans to ".")
+	Link  string                        // if set: create this symlink (relative to cwd) first, to Target
+	Tgt   func(base, rel string) string
 }
 
 var spellings = []spelling{
